@@ -78,6 +78,10 @@ pub fn run(tier: Tier, seed: u64) -> i32 {
         let locs: Vec<f64> = if !f.uses_loc { vec![0.0] } else if f.is32 { vec![0.0, 1.0, -1.0, 37.5, -37.5, 1e4, -1e4] } else { vec![0.0, 1.0, -1.0, 37.5, -37.5, 1e6, -1e6] };
         let mut scs: Vec<f64> = scales.to_vec();
         if f.allow_neg_scale { scs.push(-2.0); }
+        if f.name.starts_with("InverseGaussian") {
+            // IG(c mean, c shape) = c IG(mean, shape) must also hold for tiny c
+            if f.is32 { scs.extend_from_slice(&[2f64.powi(-26), 2f64.powi(-60)]); } else { scs.extend_from_slice(&[2f64.powi(-60), 2f64.powi(-300)]); }
+        }
         if f.kind == 0 && !f.name.starts_with("InverseGaussian") {
             // scales next to the ends of the float range: the map must stay finite whenever its exact value is
             if f.is32 { scs.extend_from_slice(&[2f64.powi(-100), 2f64.powi(126)]); } else { scs.extend_from_slice(&[2f64.powi(-1000), 2f64.powi(1022)]); }
